@@ -7,7 +7,6 @@ import (
 	"errors"
 	"fmt"
 	"io"
-	"log"
 	"math"
 
 	"github.com/foxglove/mcap/go/mcap"
@@ -99,10 +98,10 @@ func processBag(
 		magic := make([]byte, len(BagMagic))
 		_, err := io.ReadFull(r, magic)
 		if err != nil {
-			log.Fatal(err)
+			return fmt.Errorf("failed to read bag magic: %w", err)
 		}
 		if !bytes.Equal(magic, BagMagic) {
-			log.Fatal("not a bag")
+			return errors.New("not a bag")
 		}
 	}
 
